@@ -683,9 +683,6 @@ struct Machine<'a> {
     pieces: Vec<MPiece>,
     tainted: Option<&'static str>,
     peak: usize,
-    /// a generic value whose 64-bit form has bits above the address mask may be on the
-    /// stack (only used to classify KNOWN finding 1, never for the expected result)
-    wide_seen: bool,
     known: Option<&'static str>,
 }
 
@@ -728,20 +725,6 @@ impl<'a> Machine<'a> {
     fn taint(&mut self, why: &'static str) {
         if self.tainted.is_none() {
             self.tainted = Some(why);
-        }
-    }
-    /// KNOWN finding 1 bookkeeping: `raw` is the 64-bit form of a generic value; remember if
-    /// it has bits above the address mask that are not a sign extension.
-    fn note_raw(&mut self, raw: u64) {
-        let w = 8 * self.addr as u32;
-        if w >= 64 {
-            return;
-        }
-        let mask = width_mask(w);
-        let hi = raw & !mask;
-        let sign_ext = hi == !mask && (raw >> (w - 1)) & 1 == 1;
-        if hi != 0 && !sign_ext {
-            self.wide_seen = true;
         }
     }
     fn push(&mut self, v: Val) -> R<()> {
@@ -868,12 +851,6 @@ impl<'a> Machine<'a> {
             }
             let w = l.ty.bits(a);
             let count = r.bits as u128; // non-negative
-            if r.ty == Ty::Generic && count < w as u128 && self.wide_seen {
-                self.known = Some("generic_shift_count_unreduced");
-            }
-            if op == Bin::Shl && l.ty == Ty::Generic && count < 64 {
-                self.note_raw(((l.bits as u128) << count as u32) as u64);
-            }
             let res = match op {
                 Bin::Shl => {
                     if count >= w as u128 {
@@ -1024,9 +1001,6 @@ impl<'a> Machine<'a> {
             }
         } else {
             let x = v.int_value(a);
-            if x < 0 && to.is_float() {
-                self.known = Some("convert_negative_integer_to_float");
-            }
             match to {
                 Ty::F32 => Val::from_f32(x as f32),
                 Ty::F64 => Val::from_f64(x as f64),
@@ -1060,7 +1034,6 @@ pub fn evaluate(code: &[u8], cfg: &Config, pool: &[Vec<u8>], ans: &mut dyn FnMut
         pieces: vec![],
         tainted: None,
         peak: 0,
-        wide_seen: false,
         known: None,
     };
     let mut out = Outcome { requests: vec![], end: End::Budget, iterations: 0, decodes: 0, tainted: None, executed: vec![], peak_stack: 0, known: None };
@@ -1079,11 +1052,7 @@ fn run<'a>(m: &mut Machine<'a>, out: &mut Outcome, pool: &'a [Vec<u8>], ans: &mu
     let a = m.addr;
     let enc = m.cfg.enc;
     if let Some(v) = m.cfg.initial {
-        m.note_raw(v);
         m.push(Val::generic(v, a))?;
-    }
-    if let Some(v) = m.cfg.object_address {
-        m.note_raw(v);
     }
     // true while the last executed operation was a request / call whose "trailing
     // non-piece operation" check the pinned tree skips
@@ -1116,12 +1085,10 @@ fn run<'a>(m: &mut Machine<'a>, out: &mut Outcome, pool: &'a [Vec<u8>], ans: &mu
         }
         let step = match op {
             Op::ConstU(v) => {
-                m.note_raw(v);
                 m.push(Val::generic(v, a))?;
                 Step::Plain
             }
             Op::ConstS(v) => {
-                m.note_raw(v as u64);
                 m.push(Val::generic(v as u64, a))?;
                 Step::Plain
             }
@@ -1210,9 +1177,6 @@ fn run<'a>(m: &mut Machine<'a>, out: &mut Outcome, pool: &'a [Vec<u8>], ans: &mu
                 let v = m.pop()?;
                 if v.ty.is_float() {
                     return Err(err(&[E_INTEGRAL]));
-                }
-                if v.ty == Ty::Generic {
-                    m.note_raw(!v.bits);
                 }
                 m.push(wrap(v.ty, !(v.bits as i128), a))?;
                 Step::Plain
@@ -1388,9 +1352,6 @@ fn run<'a>(m: &mut Machine<'a>, out: &mut Outcome, pool: &'a [Vec<u8>], ans: &mu
                 match (&req, &op) {
                     (Req::Memory { .. }, _) | (Req::EntryValue(_), _) | (Req::WasmLocal(_), _) | (Req::WasmGlobal(_), _) | (Req::WasmStack(_), _) => {
                         let Ans::Value(t, raw) = answer else { return Err(bad_answer()) };
-                        if t == Ty::Generic {
-                            m.note_raw(raw);
-                        }
                         m.push(Val::new(t, raw, a))?;
                     }
                     (Req::Register { .. }, Op::Breg { off, .. }) => {
@@ -1410,12 +1371,10 @@ fn run<'a>(m: &mut Machine<'a>, out: &mut Outcome, pool: &'a [Vec<u8>], ans: &mu
                     }
                     (Req::FrameBase, Op::Fbreg(off)) => {
                         let Ans::Word(w) = answer else { return Err(bad_answer()) };
-                        m.note_raw(w.wrapping_add(*off as u64));
                         m.push(Val::generic(w.wrapping_add(*off as u64), a))?;
                     }
                     (Req::Tls(_), _) | (Req::Cfa, _) | (Req::ParameterRef(_), _) | (Req::RelocatedAddress(_), _) | (Req::IndexedAddress { .. }, _) => {
                         let Ans::Word(w) = answer else { return Err(bad_answer()) };
-                        m.note_raw(w);
                         m.push(Val::generic(w, a))?;
                     }
                     (Req::AtLocation(_), _) => {
@@ -1445,9 +1404,6 @@ fn run<'a>(m: &mut Machine<'a>, out: &mut Outcome, pool: &'a [Vec<u8>], ans: &mu
                         let Ans::Type(t) = answer else { return Err(bad_answer()) };
                         let v = m.pop()?;
                         let r = m.convert(v, t);
-                        if t == Ty::Generic && a < 8 {
-                            m.wide_seen = true;
-                        }
                         m.push(r)?;
                     }
                     (Req::BaseType(_), Op::Reinterpret(_)) => {
